@@ -106,3 +106,16 @@ MUTANTS += [
     {"name": "c12-retry-restarts-ttl", "checks": ["C12", "C04"],
      "edits": [(PA, '            datetime.now() + next_retry,\n        )\n        return copy', '            datetime.now() + next_retry,\n        )\n        object.__setattr__(copy, "timestamp", datetime.now())\n        return copy')]},
 ]
+MUTANTS += [
+    {"name": "c14-redis-no-watch", "checks": ["C14", "C01"],
+     "edits": [(RC, "            await pipe.watch(full_queue_name)\n", ""), (RC, "            pipe.multi()\n", "")]},
+    {"name": "c14-mem-finish-returns-all", "checks": ["C14", "C01"],
+     "edits": [(MC, "            if taken is not None and taken[2] is self:", "            if True:")]},
+    {"name": "c14-redis-processing-score-floor", "checks": ["C14"],
+     "edits": [(RC, "{msg_short_name: str(time.time())}", "{msg_short_name: str(unix_time())}")]},
+    {"name": "c14-amqp-finish-ignores-tag", "checks": ["C14", "C01"],
+     "edits": [(AC, "            if self.broker._id_to_delivery_tag.get(id_) == tag:\n                del self.broker._id_to_delivery_tag[id_]\n                rejects.append(self.broker._channel.basic_reject(tag))",
+                    "            if id_ in self.broker._id_to_delivery_tag:\n                tag = self.broker._id_to_delivery_tag.pop(id_)\n                rejects.append(self.broker._channel.basic_reject(tag))")]},
+    {"name": "c14-redis-reject-keeps-processing-mark", "checks": ["C14", "C01"],
+     "edits": [("repid/connections/redis/message_broker.py", "                    in_front=True,\n                )\n            self.__unmark_processing(key, pipe)\n            await pipe.execute()\n\n    async def requeue", "                    in_front=True,\n                )\n            await pipe.execute()\n\n    async def requeue")]},
+]
